@@ -5,6 +5,7 @@ from fractions import Fraction
 
 import z3
 
+from .values import fresh_name as fresh_name_
 from .values import (NOT_IMPLEMENTED, BoundMethod, ClassRef, ExcVal, Ext, FuncRef, Obj, Partial, PyFunc, SSeq,
                      Unsupported, Value, concrete, fresh_int, is_boollike, is_intlike, is_numlike, is_sym_bool,
                      is_sym_int, is_z3, to_real, to_z3, z_and, z_eq, z_implies, z_ite, z_not, z_or, zbool)
@@ -963,6 +964,22 @@ def _type(interp, v):
 
 
 def _sorted(interp, v):
+    seq = as_seq_or_none(interp, v)
+    if seq is not None and not seq.is_concrete_len():
+        # sorted(s) for a sequence of symbolic length: a non-decreasing rearrangement of s (bijection of positions)
+        n = to_z3(seq.length)
+        R = SSeq.fresh('sorted', z3.IntSort(), None, 'list', seq.length)
+        perm = z3.Function(fresh_name_('perm'), z3.IntSort(), z3.IntSort())
+        inv = z3.Function(fresh_name_('pinv'), z3.IntSort(), z3.IntSort())
+        i, j = fresh_int('i'), fresh_int('j')
+        interp.run.assume(z3.And(
+            z3.ForAll([i, j], z3.Implies(z3.And(0 <= i, i <= j, j < n), R.arr[i] <= R.arr[j])),
+            z3.ForAll([i], z3.Implies(z3.And(0 <= i, i < n), z3.And(0 <= perm(i), perm(i) < n, inv(perm(i)) == i,
+                                                                   R.arr[i] == to_z3(seq.get(perm(i))))),
+                      patterns=[perm(i)]),
+            z3.ForAll([j], z3.Implies(z3.And(0 <= j, j < n), z3.And(0 <= inv(j), inv(j) < n, perm(inv(j)) == j)),
+                      patterns=[inv(j)])))
+        return PyList(None, seq=R)
     items = interp.iter_concrete(v)
     if all(isinstance(x, str) for x in items):
         return PyList(sorted(items))
